@@ -148,6 +148,14 @@ def run(prop, tier, seed):
             obligations.append(("theorem:" + n, ok, "not checked" if ax is None else ("axioms: " + ", ".join(ax) if ax else "closed under the global context")))
             if ax is not None and not ok:
                 broken.append("theorem %s depends on non-allowed axioms %s" % (n, ax))
+        if tier == "thorough" and okc and okpa and os.environ.get("VERIF_NO_COQCHK") != "1":
+            # independent re-check of the compiled property file and everything it depends on
+            okk, kax, klog = core.coqchk(pid)
+            obligations.append(("coqchk:-o Ristretto.Properties.%s" % pid, okk,
+                                ("axioms: " + ", ".join(kax)) if kax else klog[-300:].replace("\n", " ")))
+            ctx.notes.append("coqchk -silent -o: %s; axioms reported: %s" % ("ok" if okk else "FAILED", kax or "<none>"))
+            if not okk:
+                broken.append("coqchk does not accept Properties/%s.vo: %s" % (pid, klog[-600:]))
         okr, rlog = core.build_runner()
         if not okr:
             broken.append("extracted runner does not build: " + rlog[-800:])
@@ -261,7 +269,10 @@ def run(prop, tier, seed):
                     small = c0
                 search_cases.append(small)
             try:
-                search_cases += prop.gen(random.Random(seed + 777), n * 10, ctx)
+                extra_cases = prop.gen(random.Random(seed + 777), n * 10, ctx)
+                for c in extra_cases:
+                    c.id = "s" + c.id          # ids key the outputs: keep them apart from the shrunk case's id
+                search_cases += extra_cases
             except Exception:
                 pass
             if search_cases:
